@@ -351,7 +351,7 @@ def run(tier):
     units.append(os.path.join(REPO, "src/Utilities/Data.cxx"))      # options of DSLs, bricks and models: '{a: 1, b: {...}}' 
     units += [u for u in units_under("src/Math") if "IntegerEvaluator" in os.path.basename(u)]
     units += [u for u in allu if os.path.basename(u) in ("ModelDSL.cxx",)]
-    funcs, found = C54.analyse_units(rep, sorted(set(units)), r"^(mfront::|tfel::utilities::CxxTokenizer|tfel::utilities::Data|tfel::math::IntegerEvaluator)", member="this->current", check_increment=True)
+    funcs, found = C54.analyse_units(rep, sorted(set(units)), r"^(mfront::|tfel::utilities::CxxTokenizer|tfel::utilities::Data|tfel::math::IntegerEvaluator)", member="this->current", check_increment=True, check_singular=True)
     seen = set()
     for f, sid, var, why in found:
         loc = rel(f.short_loc(sid)) if sid in f.stmts else rel(f.loc)
